@@ -279,6 +279,34 @@ func init() {
 		}
 		return fmt.Sprintf("ok %s H%s C%d", hex.EncodeToString(b), renderHeader(f.Header), f.CRC)
 	}
+	extraOps["encrep"] = func(a []string) string {
+		if len(a) != 3 {
+			return "bad-op"
+		}
+		k, _ := strconv.Atoi(a[0])
+		f, err := buildFile(a[2])
+		if err != nil {
+			return "bad-file"
+		}
+		first, t := safeEncode(f, archOf(a[1]))
+		if t != "ok" {
+			return t
+		}
+		for i := 1; i < k; i++ {
+			// a freshly built, deeply equal File each time
+			f2, _ := buildFile(a[2])
+			b, t2 := safeEncode(f2, archOf(a[1]))
+			if t2 != "ok" || !bytes.Equal(b, first) {
+				return "differ"
+			}
+			// and the same File value again
+			b, t2 = safeEncode(f, archOf(a[1]))
+			if t2 != "ok" || !bytes.Equal(b, first) {
+				return "differ-on-repeat"
+			}
+		}
+		return "same"
+	}
 	extraOps["rt"] = func(a []string) (out string) {
 		if len(a) != 2 {
 			return "bad-op"
